@@ -325,6 +325,24 @@ def check_match(case, ctx):
         # maxmatch defaults to 1
         res1 = must(h.match, su.ra1_c, su.dec1_c, su.ra2_c, su.dec2_c, su.rad_c)
         require(all(np.array_equal(a, b) for a, b in zip(res, res1)), "match() default differs from maxmatch=1")
+    if (su.maxmatch <= 0 and not su.selfmatch and su.n2 >= 2 and isinstance(su.ra2_c, np.ndarray)
+            and isinstance(su.dec2_c, np.ndarray)):
+        # the caller re-orders his second catalogue in place and matches again on the same HTM object with the
+        # same array objects: pair (i, j) must become (i, n2-1-j)
+        g1 = np.zeros((su.n1, su.n2), dtype=bool)
+        g1[res[0], res[1]] = True
+        su.ra2_c[...] = su.ra2_c[::-1].copy()
+        su.dec2_c[...] = su.dec2_c[::-1].copy()
+        res2 = must(h.match, su.ra1_c, su.dec1_c, su.ra2_c, su.dec2_c, su.rad_c, maxmatch=su.maxmatch)
+        g2 = np.zeros((su.n1, su.n2), dtype=bool)
+        g2[res2[0], res2[1]] = True
+        constrained = (su.req | su.forb)[:, ::-1]
+        diff = (g2 != g1[:, ::-1]) & constrained
+        if diff.any():
+            i, j = np.argwhere(diff)[0]
+            require(False, "after the second set was reversed in place (same array objects, same HTM object) pair "
+                    "(%d,%d) is %s, but the points now at these positions are %.12g deg apart (radius %.12g)",
+                    i, j, "returned" if g2[i, j] else "missing", float(su.sep[i, su.n2 - 1 - j]), su.rad[i])
 
 
 def check_depths(case, ctx):
